@@ -187,6 +187,8 @@ class Data(object):
         There doesn't seem to be an easy way to avoid this.
         """
         self._timesI = self._get_common_indices(self._inputs, verif.axis.Time(), self.times)
+        if len(self._timesI[0]) == 0:
+            verif.util.error("No valid times selected")
 
         # Compute axis values
         self.axis_cache = dict()
